@@ -275,6 +275,14 @@ def f_t(t, w=1.0):
     return w * t + 0.5
 
 
+def f_E(t, E):
+    return E
+
+
+def f_s(t, s):
+    return 1.0
+
+
 def f_targs(t, args):
     return args["w"] * t + 0.5
 
@@ -324,9 +332,10 @@ def make_state(kind, order):
 
 # ==================================================================== scenarios
 class Scenario:
-    def __init__(self, name, site, build, call, repeat=True, compare=True, exact=None):
+    def __init__(self, name, site, build, call, repeat=True, compare=True, exact=None,
+                 perturb=True):
         self.name, self.site, self.build, self.call = name, site, build, call
-        self.repeat, self.compare = repeat, compare
+        self.repeat, self.compare, self.perturb = repeat, compare, perturb
         fam = name.split(":")[0]
         # exact repeat-call equality where every operation is exact; solver
         # output is compared with a tolerance (validation, not an obligation)
@@ -351,17 +360,31 @@ def scenarios(rng, quick):
             A, B, C = mats(rng)
             A, B, C = A.to(dtype), B.to(dtype), C.to(dtype)
             objs = {"qobj": lambda X: X, "evo": lambda X: q.QobjEvo([X, [C, f_t]]),
-                    "num": lambda X: 3}
+                    "num": lambda X: 3,
+                    # time-dependent operand with a solver feedback argument
+                    "evofb": lambda X: q.QobjEvo(
+                        [X, [C, f_E]],
+                        args={"E": q.SESolver.ExpectFeedback(q.sigmaz().to(dtype), default=0.)}),
+                    # ... with a solver-only feedback (state / collapse)
+                    "evosfb": lambda X: q.QobjEvo(
+                        [X, [C, f_s]], args={"s": q.MESolver.StateFeedback(default=q.qeye(2))}),
+                    "evocfb": lambda X: q.QobjEvo(
+                        [X, [C, f_s]], args={"s": q.MCSolver.CollapseFeedback()})}
             return {"A": objs[kind_a](A), "B": objs[kind_b](B)}
         return build
     BIN = {"add": lambda i: i["A"] + i["B"], "sub": lambda i: i["A"] - i["B"],
            "mul": lambda i: i["A"] * i["B"], "matmul": lambda i: i["A"] @ i["B"],
            "rsub": lambda i: i["B"] - i["A"], "and": lambda i: i["A"] & i["B"]}
     for ka, kb in [("qobj", "qobj"), ("evo", "qobj"), ("qobj", "evo"), ("evo", "evo"),
-                   ("evo", "num"), ("qobj", "num")]:
+                   ("evo", "num"), ("qobj", "num"),
+                   ("evo", "evofb"), ("evofb", "evo"), ("evo", "evosfb"), ("evosfb", "evo"),
+                   ("evo", "evocfb"), ("qobj", "evofb"), ("evofb", "qobj"), ("evofb", "evosfb"),
+                   ("evosfb", "evofb"), ("evofb", "num")]:
         for op, fn in BIN.items():
             if kb == "num" and op in ("matmul", "and"):
                 continue
+            if op == "and" and ("fb" in ka or "fb" in kb):
+                continue          # tensor of operators with feedback is refused by qutip
             if kb == "num" and ka == "qobj" and op in ("add", "sub", "rsub"):
                 pass
             for dt in (dtypes if not quick else [dtypes[rng.randrange(3)]]):
@@ -370,7 +393,7 @@ def scenarios(rng, quick):
     UN = {"neg": lambda i: -i["A"], "dag": lambda i: i["A"].dag(), "conj": lambda i: i["A"].conj(),
           "trans": lambda i: i["A"].trans(), "div": lambda i: i["A"] / 2,
           "copy": lambda i: i["A"].copy()}
-    for ka in ("qobj", "evo"):
+    for ka in ("qobj", "evo", "evofb", "evosfb"):
         for op, fn in UN.items():
             add("unary:%s:%s" % (op, ka), "unary:" + op, b_arith(ka, "num", dtypes[rng.randrange(3)]), fn)
 
@@ -493,7 +516,8 @@ def scenarios(rng, quick):
         lambda i: q.vector_to_operator(q.operator_to_vector(i["rho"])))
     add("qobj:misc", "qobj:misc", lambda: {"A": mats(rng)[0], "psi": make_state("ket", "F")},
         lambda i: [i["A"].expm(), i["A"].unit(), i["A"].ptrace(0), q.expect(i["A"], i["psi"]),
-                   i["A"].to("Dense"), i["A"].eigenenergies(), i["psi"].proj()])
+                   i["A"].to("CSR"), i["A"].to("Dense", copy=True), i["A"].eigenenergies(),
+                   i["psi"].proj()])
 
     # ---- solver functions
     def b_solve(form, dtype, sup, kind, order, with_c):
@@ -617,6 +641,145 @@ def scenarios(rng, quick):
         lambda: {"e_ops": [q.sigmaz()], "options": {"keep_runs_results": False, "store_states": None,
                                                     "store_final_state": False}},
         res_ctor)
+    # ---- solver-level entry points: every storage format, H + c_ops and a
+    #      ready-made Liouvillian
+    def b_sys(form, dtype, n=2):
+        def build():
+            sz, sx, sm = q.sigmaz(), q.sigmax(), q.sigmam()
+            H = (sz + 0.5 * sx).to(dtype)
+            c_ops = [(0.7 * sm).to(dtype), (0.3 * sz).to(dtype)]
+            d = {"a": sm.to(dtype), "b": sm.dag().to(dtype),
+                 "rho0": make_state("dm", "F"), "psi0": make_state("ket", "C"),
+                 "tlist": [0.0, 0.25, 0.5], "taulist": np.array([0.0, 0.25, 0.5]),
+                 "wlist": np.array([-1.0, 0.0, 1.0]),
+                 "options": {"progress_bar": False}}
+            if form == "L":
+                d["H"] = q.liouvillian(H, c_ops).to(dtype)
+                d["c_ops"] = []
+            else:
+                d["H"] = H
+                d["c_ops"] = c_ops
+            return d
+        return build
+    SS = {
+        "direct": {}, "direct-solve": {"solver": "solve"}, "direct-dense": {"sparse": False},
+        "direct-spsolve": {"solver": "spsolve"}, "direct-lstsq": {"solver": "lstsq"},
+        "direct-gmres": {"solver": "gmres"},
+        "eigen": {"method": "eigen"}, "eigen-dense": {"method": "eigen", "sparse": False},
+        "svd": {"method": "svd"}, "power": {"method": "power"},
+        "power-gmres": {"method": "power", "solver": "gmres"},
+        "propagator": {"method": "propagator"},
+    }
+    API = {}
+    for nm, kw in SS.items():
+        API["steadystate:" + nm] = (
+            "qutip/solver/steadystate.py:steadystate",
+            lambda i, kw=kw: q.steadystate(i["H"], i["c_ops"], **kw), ("Hc", "L"))
+    for meth in ("splu", "direct", "numpy", "scipy"):
+        API["pseudo_inverse:" + meth] = (
+            "qutip/solver/steadystate.py:pseudo_inverse",
+            lambda i, meth=meth: q.pseudo_inverse(i["H"], method=meth), ("L",))
+    API["propagator"] = ("qutip/solver/propagator.py:propagator",
+                         lambda i: q.propagator(i["H"], 0.5, c_ops=i["c_ops"], options=i["options"]),
+                         ("Hc", "L"))
+    API["propagator_steadystate"] = (
+        "qutip/solver/propagator.py:propagator_steadystate",
+        lambda i: q.propagator_steadystate(q.propagator(i["H"], 2.0, c_ops=i["c_ops"], options=i["options"])),
+        ("Hc",))
+    API["mesolve"] = ("qutip/solver/mesolve.py:mesolve",
+                      lambda i: q.mesolve(i["H"], i["rho0"], i["tlist"], c_ops=i["c_ops"],
+                                          e_ops=[i["a"]], options=i["options"]), ("Hc", "L"))
+    API["correlation_2op_1t"] = (
+        "qutip/solver/correlation.py:correlation_2op_1t",
+        lambda i: q.correlation_2op_1t(i["H"], None, i["taulist"], i["c_ops"], i["a"], i["b"]),
+        ("Hc", "L"))
+    API["correlation_2op_1t:rho0"] = (
+        "qutip/solver/correlation.py:correlation_2op_1t",
+        lambda i: q.correlation_2op_1t(i["H"], i["rho0"], i["taulist"], i["c_ops"], i["a"], i["b"],
+                                       reverse=True), ("Hc", "L"))
+    API["correlation_2op_2t"] = (
+        "qutip/solver/correlation.py:correlation_2op_2t",
+        lambda i: q.correlation_2op_2t(i["H"], i["rho0"], i["tlist"], i["taulist"], i["c_ops"],
+                                       i["a"], i["b"]), ("Hc", "L"))
+    API["correlation_3op_1t"] = (
+        "qutip/solver/correlation.py:correlation_3op_1t",
+        lambda i: q.correlation_3op_1t(i["H"], i["rho0"], i["taulist"], i["c_ops"], i["a"], i["b"],
+                                       i["a"]), ("Hc",))
+    API["coherence_function_g1"] = (
+        "qutip/solver/correlation.py:coherence_function_g1",
+        lambda i: q.coherence_function_g1(i["H"], None, i["taulist"], i["c_ops"], i["a"]), ("Hc",))
+    API["spectrum:es"] = ("qutip/solver/spectrum.py:spectrum",
+                          lambda i: q.spectrum(i["H"], i["wlist"], i["c_ops"], i["a"], i["b"]),
+                          ("Hc", "L"))
+    API["spectrum:pi"] = ("qutip/solver/spectrum.py:spectrum",
+                          lambda i: q.spectrum(i["H"], i["wlist"], i["c_ops"], i["a"], i["b"],
+                                               solver="pi"), ("Hc", "L"))
+    API["spectrum:solve"] = ("qutip/solver/spectrum.py:spectrum",
+                             lambda i: q.spectrum(i["H"], i["wlist"], i["c_ops"], i["a"], i["b"],
+                                                  solver="solve"), ("Hc",))
+
+    def _spec():
+        return q.coefficient(lambda w: 0.1 * (w > 0), args={"w": 0})
+    API["brmesolve"] = (
+        "qutip/solver/brmesolve.py:brmesolve",
+        lambda i: q.brmesolve(i["H"], i["rho0"], i["tlist"], a_ops=[[i["a"] + i["b"], _spec()]],
+                              c_ops=i["c_ops"], e_ops=[i["a"]], options=i["options"]), ("Hc",))
+    API["bloch_redfield_tensor"] = (
+        "qutip/core/blochredfield.py:bloch_redfield_tensor",
+        lambda i: q.bloch_redfield_tensor(i["H"], [[i["a"] + i["b"], _spec()]], i["c_ops"]), ("Hc",))
+    API["krylovsolve"] = (
+        "qutip/solver/krylovsolve.py:krylovsolve",
+        lambda i: q.krylovsolve(i["H"], i["psi0"], i["tlist"], 2, e_ops=[i["a"] + i["b"]],
+                                options=i["options"]), ("H",))
+
+    def _fH(i):
+        return [i["H"], [i["a"] + i["b"], lambda t: np.sin(2 * np.pi * t)]]
+    API["fsesolve"] = ("qutip/solver/floquet.py:fsesolve",
+                       lambda i: q.fsesolve(_fH(i), i["psi0"], i["tlist"], T=1.0,
+                                            e_ops=[i["a"] + i["b"]]), ("H",))
+    API["FloquetBasis"] = ("qutip/solver/floquet.py:FloquetBasis",
+                           lambda i: q.FloquetBasis(q.QobjEvo(_fH(i)), 1.0).mode(0.3), ("H",))
+    API["fmmesolve"] = (
+        "qutip/solver/floquet.py:fmmesolve",
+        lambda i: q.fmmesolve(_fH(i), i["rho0"], i["tlist"], c_ops=[i["a"] + i["b"]],
+                              spectra_cb=[lambda w: 0.1 * (w > 0)], T=1.0,
+                              options=i["options"]).final_state, ("H",))
+
+    def _heom(i):
+        from qutip.solver.heom import heomsolve, DrudeLorentzBath
+        bath = DrudeLorentzBath(i["a"] + i["b"], lam=0.1, gamma=1.0, T=1.0, Nk=1)
+        i["bath"] = bath
+        return heomsolve(i["H"], bath, 1, i["rho0"], i["tlist"], e_ops=[i["a"]],
+                         options={"progress_bar": False}).expect
+    API["heomsolve"] = ("qutip/solver/heom/bofin_solvers.py:heomsolve", _heom, ("H", "L0"))
+    API["channels"] = (
+        "qutip/core/superop_reps.py:to_choi",
+        lambda i: [q.to_choi(i["H"]), q.to_kraus(q.to_choi(i["H"])), q.to_super(q.to_choi(i["H"])),
+                   q.to_chi(i["H"])], ("Lchan",))
+    API["states-misc"] = (
+        "qutip/core/metrics.py:fidelity",
+        lambda i: [q.fidelity(i["rho0"], i["rho0"]), q.entropy_vn(i["rho0"]), q.expect(i["H"], i["rho0"]),
+                   q.variance(i["H"], i["rho0"]), i["H"].eigenstates()[0], i["H"].groundstate()[0],
+                   i["H"].sqrtm(), i["H"].inv(), i["H"].norm(), i["H"].tr()], ("H",))
+
+    def b_form(form, dt):
+        base = b_sys("L" if form.startswith("L") else "Hc", dt)
+
+        def build():
+            d = base()
+            if form == "H":
+                d["c_ops"] = []
+            if form == "L0":                # Liouvillian of the bare Hamiltonian
+                d["H"] = q.liouvillian((q.sigmaz() + 0.5 * q.sigmax()).to(dt)).to(dt)
+            if form == "Lchan":
+                d["H"] = q.propagator(d["H"], 0.5, options={"progress_bar": False}).to(dt)
+            return d
+        return build
+    for nm, (site, fn, forms) in API.items():
+        for form in forms:
+            for dt in dtypes:
+                add("api:%s:%s:%s" % (nm, form, dt), site, b_form(form, dt), fn)
+
     if not quick:
         add("steadystate", "qutip/solver/steadystate.py:steadystate",
             lambda: {"H": mats(rng)[0], "c_ops": [q.sigmam()]},
@@ -632,6 +795,80 @@ def scenarios(rng, quick):
             lambda i: q.smesolve(i["H"], i["state"], i["tlist"], sc_ops=i["sc_ops"], ntraj=2,
                                  seeds=1, options=i["options"]).average_final_state)
     return out
+
+
+def perturb(o, depth=0, seen=None):
+    """Apply the documented in-place operations to a RESULT (and to what it
+    contains).  If the result shares a mutable container (element list,
+    feedback table, dict, list, data buffer) with an argument, the argument's
+    snapshot changes.  Errors of single operations are ignored: only the
+    effect on the arguments is of interest."""
+    import qutip as q
+    import qutip.core.data as _data
+    if seen is None:
+        seen = set()
+    if depth > 4 or o is None or id(o) in seen:
+        return
+    seen.add(id(o))
+
+    def attempt(f):
+        try:
+            f()
+        except Exception:
+            pass
+    if isinstance(o, q.QobjEvo):
+        keys = list(o._feedback_functions) + list(o._solver_only_feedback)
+        for k in keys:                              # replace feedback by numbers
+            attempt(lambda k=k: o.arguments({k: 0.25}))
+        attempt(lambda: o.arguments({"w": 7.0, "E": 0.5}))
+        attempt(lambda: o.arguments({"__c04_probe": q.MESolver.StateFeedback(default=None)}))
+        attempt(lambda: o.arguments({"__c04_probe2": q.MCSolver.CollapseFeedback()}))
+        attempt(lambda: o.__imul__(2))
+        attempt(lambda: o.__iadd__(q.qeye_like(o)))
+        attempt(lambda: o.__imatmul__(q.qeye_like(o)))
+        attempt(lambda: o.__iadd__(q.QobjEvo([[q.qeye_like(o), f_targs]],
+                                             args={"w": q.MESolver.StateFeedback(default=None)})))
+        attempt(lambda: o.compress())
+        attempt(lambda: o.tidyup(1e300))
+        attempt(lambda: o.to(_data.Dense))
+        return
+    if isinstance(o, q.Qobj):
+        attempt(lambda: o.tidyup(1e300))
+        return
+    if isinstance(o, _data.Dense):
+        attempt(lambda: o.as_ndarray().fill(7))
+        return
+    if isinstance(o, _data.Data):
+        attempt(lambda: _data.tidyup(o, 1e300, True))
+        return
+    if isinstance(o, np.ndarray):
+        if o.dtype == object:
+            for x in o.flat:
+                perturb(x, depth + 1, seen)
+        elif o.flags.writeable:
+            attempt(lambda: o.fill(7))
+        return
+    if isinstance(o, dict):
+        for v in list(o.values()):
+            perturb(v, depth + 1, seen)
+        attempt(lambda: o.__setitem__("__c04_probe", 1))
+        return
+    if isinstance(o, list):
+        for v in list(o):
+            perturb(v, depth + 1, seen)
+        attempt(lambda: o.append("__c04_probe"))
+        return
+    if isinstance(o, tuple):
+        for v in o:
+            perturb(v, depth + 1, seen)
+        return
+    if hasattr(o, "__dict__") and not callable(o) and not isinstance(o, type):
+        for k, v in list(vars(o).items()):
+            if callable(v) and not isinstance(v, (q.Qobj, q.QobjEvo)):
+                continue
+            if "e_ops" in k or "raw_ops" in k or k in ("solver",):
+                continue      # a result keeps the caller's e_ops by design
+            perturb(v, depth + 1, seen)
 
 
 def run_scenario(sc):
@@ -661,8 +898,27 @@ def run_scenario(sc):
             for p in diff(mid[k], after[k]):
                 if (k, p, "first-call") not in findings:
                     findings.append((k, p, "second-call"))
+    # documented in-place operations on the RESULTS must not reach the arguments
+    if sc.perturb and (raw1 is not None or raw2 is not None):
+        last = {k: snap(v) for k, v in inputs.items()}
+        same_pre = None
+        if sc.compare and not sc.exact and raw1 is not None and raw2 is not None:
+            same_pre = numclose(raw1, raw2)
+        for r in (raw1, raw2):
+            try:
+                perturb(r)
+            except Exception:
+                pass
+        pert = {k: snap(v) for k, v in inputs.items()}
+        for k in before:
+            for p in diff(last[k], pert[k]):
+                findings.append((k, p, "in-place-update-of-the-result"))
+    else:
+        same_pre = None
     same = True
-    if sc.compare and res1 is not None and res2 is not None:
+    if same_pre is not None:
+        same = same_pre
+    elif sc.compare and res1 is not None and res2 is not None:
         if sc.exact:
             same = strip_times(res1) == strip_times(res2)
         else:
@@ -1244,6 +1500,7 @@ REFUTED_REPLAY = {
     "mesolve": (SITE_DEP, "deprecated-kwarg:mesolve"),
     "mcsolve": (SITE_DEP, "deprecated-kwarg:mcsolve"),
     "QobjEvo.tidyup": (SITE_TIDY, "tidyup:"),
+    "krylovsolve": ("qutip/solver/krylovsolve.py:krylovsolve", "api:krylovsolve"),
 }
 
 
